@@ -11,8 +11,9 @@ from ..astutil import (
 from ..cfg import no_exc
 from ..report import Registry, sub, chain
 from ._helpers_rules_c import (
-    both, call_nodes, calls_ending, cut_edges, fin_quiet, must_pass, outcome, test_edges,
+    both, call_nodes, calls_ending, calm, cut_edges, fin_quiet, must_pass, outcome, test_edges,
 )
+from ._helpers_str_l import contradicted, flag_aliases, implying
 from .c23 import commit_requires_active
 
 R = Registry(
@@ -31,6 +32,21 @@ R = Registry(
 )
 
 ENG = "engine/base.py"
+FLAG = "self._is_disconnect"
+
+
+def _snapshot_aliases(ctx, f, g, flag):
+    """Locals that are a snapshot of `flag` (`was = self._is_disconnect`), usable in its place in a test.
+    A snapshot that can be followed by a new assignment of the flag is stale: unknown idiom."""
+    alias = flag_aliases(f.node, flag)
+    if alias:
+        binds = [n for nm, v, st in name_stores(f.node) if nm in alias for n in g.nodes_for(st)]
+        later = g.reachable([b for n in binds for b, lab in g.succ[n] if lab != "exc"], edge_ok=no_exc)
+        stores = [n for d, t, st in attr_stores(f.node) if d == flag and isinstance(st, (ast.Assign, ast.AnnAssign, ast.AugAssign))
+                  for n in g.nodes_for(st)]
+        ctx.require(not (set(stores) & later),
+                    f"{f.qualname}: a local snapshot of {flag} ({sorted(alias)}) is taken before the flag is assigned again")
+    return alias
 
 # C27-R1: do_* calls that are deliberately not wrapped, with the reason
 UNWRAPPED_OK = {
@@ -114,20 +130,13 @@ def r2(ctx):
     pinv = [n for n in pinv if n in live]
     enter = [n for d, t, st in attr_stores(f.node) if d == "self._reentrant_error" and isinstance(st, ast.Assign) for n in g.nodes_for(st)]
     ctx.require(enter, "_handle_dbapi_exception no longer marks re-entrance before its try block")
-    # (a) every exit of the guarded block invalidates when _is_disconnect
-    skip = []
-    for n in g.nodes:
-        if n.kind != "test":
-            continue
-        for b, lab0 in g.succ[n.id]:
-            lab = outcome(g, n.id, lab0)
-            if lab is None:
-                continue
-            atoms = test_atoms(n.stmt.test, lab == "true")
-            if n.copy and ("self._is_disconnect", False) in atoms:
-                skip.append((n.id, lab0, b))
-            if ("self.invalidated", True) in atoms:
-                skip.append((n.id, lab0, b))
+    # (a) every exit of the guarded block invalidates when _is_disconnect.  The obligation is conditional:
+    # it holds for a disconnect on a connection that is not invalidated yet, so every branch outcome that is
+    # impossible under {_is_disconnect, not invalidated} is cut -- whatever the shape of the test
+    # (nested ifs, one flattened `a and not b`, a local snapshot of the flag taken in the finally).
+    alias = _snapshot_aliases(ctx, f, g, FLAG)
+    skip = contradicted(g, {FLAG: True, "self.invalidated": False}, alias, only_copies=True) \
+        + contradicted(g, {"self.invalidated": False}, alias, only_copies=False)
     starts = [b for n in enter for b, lab in g.succ[n] if lab != "exc"]
     w = must_pass(g, starts, [g.exit, g.raise_exit], inv, edge_ok=both(fin_quiet(g), cut_edges(skip))) if inv else \
         ["self.invalidate(e) is unreachable: the guarded block always raises, only a finally can run after it"]
@@ -138,8 +147,8 @@ def r2(ctx):
     # (b)+(c) guards of the two invalidations
     bad = []
     for n in inv + pinv:
-        atoms = set(guard_atoms(g.edge_guards(n)))
-        if ("self._is_disconnect", True) not in atoms:
+        atoms = {(alias.get(a, a), p) for a, p in guard_atoms(g.edge_guards(n))}
+        if (FLAG, True) not in atoms:
             bad.append(g.nodes[n].describe())
     ctx.check(not bad, f.key + ":only-on-disconnect",
               "pool / connection invalidation is reachable for an error that is not a disconnect: " + "; ".join(bad),
@@ -148,7 +157,7 @@ def r2(ctx):
     flag_names = set()
     for n in pinv:
         atoms = set(guard_atoms(g.edge_guards(n)))
-        names = {a for a, p in atoms if p and a.isidentifier()}
+        names = {a for a, p in atoms if p and a.isidentifier() and a not in alias}
         flag_names |= names
         if not names:
             bad.append(g.nodes[n].describe())
@@ -241,6 +250,110 @@ def r4(ctx):
     commit_requires_active(ctx)
 
 
+# ---------------------------------------------------------------------- C27-R5
+# Per-call state kept on the long-lived object.  A class-level constant (`_is_disconnect = False`) that some
+# method shadows on the instance and removes again with `del self.X` (or puts back with `self.X = <default>`
+# in the same method) is *transient*: outside the call that set it, every reader expects the class default.  The error handler classifies an error only when the flag
+# is still at its default (`if not self._is_disconnect: self._is_disconnect = ...`), so a value that survives
+# the call decides the fate of the NEXT error: a leaked True makes any later error a "disconnect" (connection
+# and pool invalidated for an ordinary error) -- the opposite clause of the property.
+TRANSIENT_SCOPE = (ENG, "pool/base.py")
+
+
+def _const_default(values):
+    """The class-level default if it is one constant, else `...`."""
+    if len(values) == 1 and isinstance(values[0], ast.Constant):
+        return values[0].value
+    return ...
+
+
+def _transient_sites(ctx):
+    """[(FuncInfo, attr, default)] -- methods that give a transient attribute a non-default value."""
+    out = []
+    for rel in TRANSIENT_SCOPE:
+        m = ctx.index.module(rel)
+        if "del self." not in m.source:
+            continue
+        for cls in m.classes.values():
+            defaults = {a: _const_default(v) for a, v in cls.assigns.items()}
+            defaults = {a: d for a, d in defaults.items() if d is not ...}
+            if not defaults:
+                continue
+            transient = set()
+            for fm in cls.methods.values():
+                on, off = set(), set()
+                for d, t, st in attr_stores(fm.node):
+                    if not (d.startswith("self.") and d[5:] in defaults):
+                        continue
+                    if isinstance(st, ast.Delete):
+                        transient.add(d[5:])
+                    elif _is_default(st, defaults[d[5:]]):
+                        off.add(d[5:])
+                    else:
+                        on.add(d[5:])
+                transient |= on & off       # same idiom spelled `self.X = <default>` instead of `del self.X`
+            for fm in sorted(cls.methods.values(), key=lambda x: x.node.lineno):
+                for attr in sorted(transient):
+                    if any(d == f"self.{attr}" and not isinstance(st, ast.Delete) and not _is_default(st, defaults[attr])
+                           for d, t, st in attr_stores(fm.node)):
+                        out.append((fm, attr, defaults[attr]))
+    return out
+
+
+def _is_default(st, default) -> bool:
+    v = getattr(st, "value", None)
+    return isinstance(st, (ast.Assign, ast.AnnAssign)) and isinstance(v, ast.Constant) and v.value is default
+
+
+@R.rule("C27-R5", floor=2, template="T-PATH",
+        desc="per-call state of the long-lived object (class-level constant shadowed on the instance and removed "
+             "with `del self.X`: _reentrant_error, _is_disconnect) is back at its class default on every exit of "
+             "the method that set it: each exit passes `del self.X` / `self.X = <default>` or a branch that has "
+             "just tested the value false (nested activations under the re-entrance guard are the outer call's)")
+def r5(ctx):
+    sites = _transient_sites(ctx)
+    for f, attr, default in sites:
+        ctx.functions_analysed.add(f.key)
+        flag = f"self.{attr}"
+        g = ctx.cfg(f)
+        alias = _snapshot_aliases(ctx, f, g, flag)
+        sets, clears = [], []
+        for d, t, st in attr_stores(f.node):
+            if d != flag:
+                continue
+            if isinstance(st, ast.Delete) or _is_default(st, default):
+                clears += g.nodes_for(st)
+            else:
+                sets += g.nodes_for(st)
+        # a branch that can only be taken when the value is falsy leaves nothing to clean up
+        falsy = implying(g, flag, False, alias) if not default else []
+        # re-entrance guard: `if self.G: raise` evaluated before `self.G = True ... finally: del self.G` -- a call
+        # that finds G set runs inside the protected region of an outer activation, whose finally cleans up
+        nested = []
+        for f2, a2, d2 in sites:
+            if f2 is not f or a2 == attr:
+                continue
+            g_on = [n for d, t, st in attr_stores(f.node) if d == f"self.{a2}" and isinstance(st, ast.Assign)
+                    and isinstance(st.value, ast.Constant) and st.value.value is True for n in g.nodes_for(st)]
+            for a, lab, b in implying(g, f"self.{a2}", True):
+                if g_on and set(g_on) <= g.reachable([a]) and not (set(g_on) & g.reachable([b], edge_ok=no_exc)):
+                    nested.append((a, lab, b))
+        w = must_pass(g, sets, [g.exit, g.raise_exit], clears,
+                      edge_ok=both(fin_quiet(g), calm(g), cut_edges(falsy + nested)),
+                      start_edge_ok=no_exc) if sets and clears else ["the value is never removed in this function"]
+        sticky = any((flag, False) in {(alias.get(a, a), p) for a, p in guard_atoms(g.edge_guards(n))} for n in sets)
+        readers = sorted({m.qualname for m in f.cls.methods.values() if m.key != f.key and any(
+            isinstance(x, ast.Attribute) and isinstance(x.ctx, ast.Load) and dotted(x) == flag for x in walk_local(m.node))})
+        ctx.check(w is None, f"{f.key}:{attr}:default-restored-on-every-exit",
+                  f"an exit of {f.qualname} after `{flag} = ...` neither removes the instance value (`del {flag}`) nor "
+                  f"has just tested it false: the per-call state outlives the call (every other call expects the class "
+                  f"default {default!r})"
+                  + ("; the function recomputes it only when it is false, so a leaked true value is permanent and decides "
+                     "how every later error on this object is handled" if sticky else "")
+                  + (f" (also read by {', '.join(readers)})" if readers else ""),
+                  f"`del {flag}` / tested false on every exit after the store", f.loc, w)
+
+
 # ---------------------------------------------------------------------- self-test battery
 R.mutant("commit-impl-unwrapped", ENG,
          sub("        try:\n            self.engine.dialect.do_commit(self.connection)\n        except BaseException as e:\n            self._handle_dbapi_exception(e, None, None, None, None)\n",
@@ -288,3 +401,34 @@ R.mutant("benign-rename-handler-var", ENG,
 R.mutant("benign-handle-rename-local", ENG, sub("dbapi_conn_wrapper", "wrapper", count=3), None)
 R.mutant("benign-invalidate-extra-log", ENG,
          sub("            pool_proxied_connection.invalidate(exception)\n\n        self._dbapi_connection = None\n", "            pool_proxied_connection.invalidate(exception)\n            self._log_debug(\"invalidated\")\n\n        self._dbapi_connection = None\n"), None)
+
+# --- C27-R5 / R2 robustness (strengthening round, seeds C27_1 / C27_2)
+FIN = ("            if self._is_disconnect:\n                del self._is_disconnect\n                if not self.invalidated:\n"
+       "                    dbapi_conn_wrapper = self._dbapi_connection\n                    assert dbapi_conn_wrapper is not None\n"
+       "                    if invalidate_pool_on_disconnect:\n                        self.engine.pool._invalidate(dbapi_conn_wrapper, e)\n"
+       "                    self.invalidate(e)\n")
+INV = ("                dbapi_conn_wrapper = self._dbapi_connection\n                assert dbapi_conn_wrapper is not None\n"
+       "                if invalidate_pool_on_disconnect:\n                    self.engine.pool._invalidate(dbapi_conn_wrapper, e)\n"
+       "                self.invalidate(e)\n")
+# seed 1: the two nested tests flattened into one; the flag is no longer removed when the connection is already invalid
+R.mutant("seed1-disconnect-flag-cleared-only-when-not-invalidated", ENG,
+         sub(FIN, "            if self._is_disconnect and not self.invalidated:\n                del self._is_disconnect\n" + INV), "C27-R5")
+R.mutant("disconnect-flag-del-moved-into-inner-if", ENG,
+         sub("            if self._is_disconnect:\n                del self._is_disconnect\n                if not self.invalidated:\n",
+             "            if self._is_disconnect:\n                if not self.invalidated:\n                    del self._is_disconnect\n"), "C27-R5")
+R.mutant("reentrant-flag-removed-only-for-disconnects", ENG,
+         sub("            del self._reentrant_error\n            if self._is_disconnect:\n                del self._is_disconnect\n",
+             "            if self._is_disconnect:\n                del self._reentrant_error\n                del self._is_disconnect\n"), "C27-R5")
+R.mutant("disconnect-flag-kept-when-listener-overrides", ENG,
+         sub("            if self._is_disconnect:\n                del self._is_disconnect\n                if not self.invalidated:\n",
+             "            if self._is_disconnect and should_wrap:\n                del self._is_disconnect\n                if not self.invalidated:\n"), "C27-R5")
+# the same flattening done right: the invalidation test is flattened, the flag is still removed for every disconnect
+R.mutant("benign-flattened-test-flag-cleared-separately", ENG,
+         sub(FIN, "            if self._is_disconnect and not self.invalidated:\n" + INV
+             + "            if self._is_disconnect:\n                del self._is_disconnect\n"), None)
+R.mutant("benign-flag-snapshot-local", ENG,
+         sub(FIN, "            was_disconnect = self._is_disconnect\n            if was_disconnect:\n                del self._is_disconnect\n"
+                  "            if was_disconnect and not self.invalidated:\n" + INV), None)
+R.mutant("benign-flag-reset-by-assignment", ENG,
+         sub("            if self._is_disconnect:\n                del self._is_disconnect\n                if not self.invalidated:\n",
+             "            if self._is_disconnect:\n                self._is_disconnect = False\n                if not self.invalidated:\n"), None)
